@@ -457,8 +457,13 @@ func vRunRingFine(size int, progs [][]string, rr *vgen.Rng) (log string, ok bool
 		fmt.Fprintf(&sb, "t%d:%s;", tid, op)
 	}
 	if len(c.Enabled()) > 0 { // step cap reached (a thread kept finding the mutex busy): run the rest out, the case is dropped
-		for len(c.Enabled()) > 0 {
-			c.Step(c.Enabled()[0])
+		for extra := 0; len(c.Enabled()) > 0; extra++ {
+			en := c.Enabled()
+			c.Step(en[extra%len(en)])
+			if extra > 3000 { // nobody can make progress any more: the mutex is held by a thread that will never release it
+				fmt.Fprintf(&sb, "end:DEADLOCK")
+				return sb.String(), true
+			}
 		}
 		return "", false
 	}
@@ -502,6 +507,7 @@ func TestVerifRingFine(t *testing.T) {
 		{{"u1", "o", "o"}, {"l", "o", "l"}},
 		{{"n2"}, {"l"}, {"u1"}},
 	}
+	deadlocks := 0
 	for i := 0; i < n; i++ {
 		rr := r.Fork()
 		var progs [][]string
@@ -531,6 +537,12 @@ func TestVerifRingFine(t *testing.T) {
 		size := 1 + rr.Intn(3)
 		if log, ok := vRunRingFine(size, progs, rr); ok {
 			w.Case(fmt.Sprintf("f%d", i), fmt.Sprintf("size=%d progs=%s", size, show(progs)), log)
+			if strings.HasSuffix(log, "end:DEADLOCK") {
+				deadlocks++
+				if deadlocks >= 3 { // enough evidence; every further case would spin to the step cap again
+					break
+				}
+			}
 		}
 	}
 }
